@@ -495,6 +495,22 @@ func (g *gen) determinism(p *Plan) {
 			w.Ops = g.writeOps(n, bs, 0)
 		}
 		w.Ops = append(w.Ops, WOp{Op: "close"})
+		if n > 0 && !o.Legacy && g.r.Chance(1, 3) {
+			// the Writer object has a history: an earlier stream on another
+			// sink, abandoned (Reset without Close, possibly with pending
+			// bytes or blocks in flight) or closed, before the judged one
+			k := minInt(n, g.r.PickInt(1, 100, bs-1, bs, bs+1, g.r.Range(1, 2*bs+1)))
+			pre := []WOp{{Op: "write", N: k, Hist: true}}
+			if g.r.Chance(1, 3) {
+				pre = append(pre, WOp{Op: "flush"})
+			}
+			if g.r.Chance(1, 4) {
+				pre = append(pre, WOp{Op: "close"})
+			}
+			pre = append(pre, WOp{Op: "reset", Sink: 1})
+			w.Ops = append(pre, w.Ops...)
+			w.Sinks = []SinkPlan{{Yields: g.r.Pick(60, 25, 15)}, w.Sinks[0]}
+		}
 		p.Writers = append(p.Writers, w)
 		same = append(same, len(p.Writers)-1)
 		name := fmt.Sprintf("W%d", len(p.Writers)-1)
